@@ -204,7 +204,7 @@ func shape(n *xnode, b *strings.Builder) {
 
 // ---------------------------------------------------------------- workload
 
-var c16Keys = []string{"a", "b", "c", "item", "e-f", "Name", "x1", "list", "zz", "B"}
+var c16Keys = []string{"a", "b", "c", "item", "e-f", "Name", "x1", "list", "zz", "B", "ab", "abc", "items", "lists", "a1", "e"}
 
 // genXMLShapedValue builds a JSON-shaped value whose keys are XML names
 // (C03 domain): nested maps, lists, scalars, nulls, attribute and text entries.
